@@ -485,7 +485,7 @@ func (l *loop) schedule() {
 		jd := &schedx.Judge{Run: l.run, Seq: l.seq, Idx: len(l.opsLog), Ops: append([]J{}, l.opsLog...), ConsistentHistory: true}
 		jd.Maintain(schedx.ParseContext(cj), &res, strings.Contains(res.Panic, "random draws exhausted"), draws)
 	} else {
-		jd := &schedx.Judge{Run: l.run, Seq: l.seq, Idx: len(l.opsLog), Ops: append([]J{}, l.opsLog...), ConsistentHistory: true}
+		jd := &schedx.Judge{Run: l.run, Seq: l.seq, Idx: len(l.opsLog), Ops: append([]J{}, l.opsLog...), ConsistentHistory: true, Draws: draws}
 		jd.Launch(schedx.ParseContext(cj), &res, strings.Contains(res.Panic, "random draws exhausted"))
 	}
 	if res.Panic != "" {
